@@ -129,12 +129,9 @@ def run(ctx: Ctx) -> None:
     rec = g.where(has_call("self.connection.start_next_cycle"))
     ok = bool(rec) and g.must_pass(rec[0], [g.exit], has_call("self.can_read.set"), skip_labels=("exc",)) is None
     ctx.check("C06.R3", w, "recycle path releases the reader", ok, "after start_next_cycle() the parked reader is not released", mr)
-    # close path (guard false): from the test node F edge
-    tests = [n.id for n in g.nodes if n.kind == "test" and any(n.ast is a for a in ancestors(snc[0]))]
-    ok = False
-    if tests:
-        falses = [m for m, lab in g.succ[tests[-1]] if lab == "F"]
-        ok = bool(falses) and all(has_call("self.can_read.set")(g.node(f)) or g.must_pass(f, [g.exit], has_call("self.can_read.set")) is None for f in falses)
+    # close path = every normal path that does not recycle: it must release the reader as well
+    wit = g.must_pass(g.entry, [g.exit], lambda n: has_call("self.can_read.set")(n) or has_call("self.connection.start_next_cycle")(n), skip_labels=("exc", "uncaught"))
+    ok = wit is None and bool(sets)
     ctx.check("C06.R3", w, "close path releases the reader", ok, "when the connection is not recycled the parked reader must still be released", mr)
 
     # R4
@@ -160,8 +157,18 @@ def run(ctx: Ctx) -> None:
     fw = [c for c in calls(he) if isinstance(c.func, ast.Attribute) and c.func.attr == "handle"]
     ok = len(fw) == 3 and all(norm(c.func.value) == "self.stream" for c in fw) and all(("self.stream is None", False) in guard_atoms(c) for c in fw)
     ctx.check("C06.R4", wh, "Body/EndBody/Data forwarded only to self.stream, never when it is None", ok, f"forwarding sites: {[norm(c)[:50] for c in fw]}", he)
-    none_arm = [n for n in walk_local(he) if isinstance(n, ast.If) and norm(n.test) == "self.stream is None"]
-    ok = len(none_arm) == 1 and len(none_arm[0].body) == 1 and isinstance(none_arm[0].body[0], ast.Break)
+    from ..pred import eval_bool
+    from ..core import AnalysisError as _AE
+
+    env = {"isinstance(event, h11.Request)": False, "event is h11.PAUSED": False, "isinstance(event, h11.ConnectionClosed)": False, "event is h11.NEED_DATA": False, "self.stream is None": True}
+    none_arm = []
+    for b in [n for n in walk_local(he) if isinstance(n, ast.Break)]:
+        try:
+            if all(eval_bool(t, env) == pol for t, pol in guards(b)) and any("self.stream is None" in norm(t) or "self.stream is not None" in norm(t) for t, _ in guards(b)):
+                none_arm.append(b)
+        except _AE:
+            pass
+    ok = len(none_arm) == 1
     ctx.check("C06.R4", wh, "no stream: stop consuming events", ok, "events for a finished request must not be consumed while no stream exists", none_arm[0] if none_arm else he)
     # request arm creates the stream only when h11 yields a Request
     cr = find_calls(he, "self._create_stream")
@@ -195,6 +202,9 @@ def run(ctx: Ctx) -> None:
         typestate_rules.run_for(ctx, "C06")
         from . import c16
 
+        from . import c04
+
+        c04.run(Alias(ctx, "C06.R9", "a malformed message is answered with the hinted 4xx (which announces close) whenever a response can still be started - request line / headers (IDLE) and request body after a valid head (SEND_RESPONSE) - and the connection is then closed without processing further requests (C04.R4)", only={"C04.R4"}))
         c16.run(Alias(ctx, "C06.R7", "both workers hand every read - including the empty read at EOF - to the protocol, report Closed, and really close the transport when the protocol says Closed (C16.R2 on _read_data/_close/protocol_send)", only={"C16.R2"}, where=["TCPServer._read_data", "TCPServer._close", "TCPServer.protocol_send"]))
 
     ctx.assume("not decided: that h11 never yields events of request N+1 before start_next_cycle(); byte boundaries inside reads; h11's own keep-alive / HTTP/1.0 / Connection: close state tracking (trusted library)")
